@@ -119,6 +119,16 @@ def run(case, ctx):
                   "sdp-decode-field", "%s: got %r want %r" % (k, g, v),
                   fields=f)
         check(bytes(back.bytestring) == want, "sdp-reencode", "")
+        # decoding something else afterwards leaves this packet alone
+        f3 = dict(f, tag=f["tag"] ^ 0xff, dest_x=(f["dest_x"] + 1) & 0xff,
+                  data=f["data"] + b"!")
+        other = P.SDPPacket.from_bytestring(pack_sdp(f3, f3["data"]))
+        ctx.hit("second_decode")
+        check(other is not back, "decode-returns-shared-object", "")
+        for k, v in f.items():
+            check(getattr(back, k) == v, "decoded-packet-changed-later",
+                  "%s was %r, is %r after another packet was decoded" %
+                  (k, v, getattr(back, k)), fields=f)
         if f["data"] and any(f[k] for k in SDP_FIELDS):
             ctx.mark_nontrivial()
         return "ok"
